@@ -1,85 +1,96 @@
 import LunarVerif.Model.Regex
 import LunarVerif.Model.UrlTree
 import LunarVerif.Model.C13
+import LunarVerif.Model.C03
 /-
 Model for C14 — "traffic a flow or policy must see is always registered as managed".  Core Lean only.
 
   1. `formatURL` / `formatEndpoint` : the TEXT transformation of `config.HaproxyEndpointFormat`
-     (update_endpoints.go:136-162), character by character:
-        strings.ReplaceAll(url, ".", `\.`)                                  `replaceDots`
-        HasSuffix "/*" ⇒ TrimSuffix + `(/.*)?`                              `stripWildSuffix`
-        regexp `/\{[a-zA-Z0-9-_]+\}` .ReplaceAllString(…, "/[^/]+")         `replaceParams` (leftmost,
-                                                                            non-overlapping, as a scanner)
-        method + ":::" + formatted (+ "$" unless wildcard)
+     (update_endpoints.go, after the repairs F14a + F14f + F14c), operation by operation:
+        trailing wildcard: HasSuffix "/*" ⇒ TrimSuffix + `(/.*)?`; host-only URL with suffix ".*" ⇒ `(\..*)?`
+        strings.Split(url, "/"); the first segment (host) strings.Split on "." and joined with `\.`
+        every part: `urltree.TryExtractPathParameter` ⇒ `[^/]+` (path) / `[^./]+` (host), else regexp.QuoteMeta
+        method + ":::" + formatted (+ "$" unless wildcard); the method text is not quoted
   2. `formatAST` : the INTENDED meaning of that expression for a pattern given as parts.
-  3. Registration: flows mode (`buildHAProxyFlowsEndpointsRequest`, handling_data_manager.go:532-578 over
+  3. Registration: flows mode (`buildHAProxyFlowsEndpointsRequest` after F14b, handling_data_manager.go:532-583 over
      `Stream.supportedFilters`, streams.go:142-165) and policy mode (`BuildHAProxyEndpointsRequest`).
   4. What the engine itself selects: flows mode = `streamfilter.FilterTree` (`AddFlow`, `GetFlow` =
      `urltree.Traversal`/`lookupFlow` + the method qualification of `filter_node.go`), policy mode =
-     `EndpointPolicyTree` (the C13 model).  These reproduce the code as it is (F03a–d, F13a–d included).
+     `EndpointPolicyTree` (the C13 model).  These reproduce the code as it is after the trie repairs (F03a/b/d,
+     F13a/b/d/e/f, F13c-wildcard).
   5. `managedB` : what the proxy's `is_managed` ACL computes (haproxy.cfg:177-178): manage-all, or some
      registered expression is found (unanchored) in `METHOD:::host/path`.
 -/
 namespace LunarVerif.C14
 open LunarVerif.UrlTree LunarVerif.Regex
 
-/-! ### 1. Text transformation -/
+/-! ### 1. Text transformation (`HaproxyEndpointFormat` after F14a + F14f + F14c) -/
 
-/-- `strings.ReplaceAll(url, ".", "\\.")` -/
-def replaceDots : List Char → List Char
+/-- The characters `regexp.QuoteMeta` escapes: `\.+*?()|[]{}^$`. -/
+def specialChars : List Char := ['\\', '.', '+', '*', '?', '(', ')', '|', '[', ']', '{', '}', '^', '$']
+
+/-- `regexp.QuoteMeta` -/
+def quoteMeta : List Char → List Char
   | [] => []
-  | c :: cs => if c = '.' then '\\' :: '.' :: replaceDots cs else c :: replaceDots cs
+  | c :: cs => if specialChars.contains c then '\\' :: c :: quoteMeta cs else c :: quoteMeta cs
 
-/-- `HasSuffix(s, "/*")` + `TrimSuffix`: `some prefix` when `s` ends with `/*`. -/
-def stripWildSuffix : List Char → Option (List Char)
-  | [] => none
+/-- `strings.Split(s, sep)` for a one-character separator (always at least one piece). -/
+def splitOn (sep : Char) : List Char → List (List Char)
+  | [] => [[]]
   | c :: cs =>
-    if c = '/' ∧ cs = ['*'] then some []
-    else (stripWildSuffix cs).map (c :: ·)
+    if c = sep then [] :: splitOn sep cs
+    else match splitOn sep cs with
+      | [] => [[c]]
+      | p :: ps => (c :: p) :: ps
 
-/-- `[a-zA-Z0-9-_]` (Go parses `9-_` as the literals `-` and `_` after the range `0-9`). -/
-def isNameChar (c : Char) : Bool := isAlnum c || c == '-' || c == '_'
+/-- `strings.Join` -/
+def joinWith (sep : List Char) : List (List Char) → List Char
+  | [] => []
+  | [w] => w
+  | w :: ws => w ++ sep ++ joinWith sep ws
 
-/-- Scanner state of the path-parameter replacement. -/
-inductive PState where
-  | normal
-  | slash                          -- "/" read
-  | name (rev : List Char)         -- "/{" ++ rev.reverse read, all of them name characters
+/-- `HasSuffix(s, [a, b])` + `TrimSuffix`: `some prefix` when `s` ends with the two characters. -/
+def stripSuffix2 (a b : Char) (s : List Char) : Option (List Char) :=
+  match s.reverse with
+  | y :: x :: r => if x = a ∧ y = b then some r.reverse else none
+  | _ => none
 
-def paramRegex : List Char := ['/', '[', '^', '/', ']', '+']          -- `/[^/]+`
+/-- `urltree.TryExtractPathParameter`: `HasPrefix(part, "{") && HasSuffix(part, "}")`. -/
+def isParamText (w : List Char) : Bool := w.head? == some '{' && w.getLast? == some '}'
 
-/-- `regexToFindPathParameters.ReplaceAllString(s, "/[^/]+")`. -/
-def replaceParamsGo : PState → List Char → List Char
-  | .normal, [] => []
-  | .slash, [] => ['/']
-  | .name rev, [] => '/' :: '{' :: rev.reverse
-  | .normal, c :: cs => if c = '/' then replaceParamsGo .slash cs else c :: replaceParamsGo .normal cs
-  | .slash, c :: cs =>
-    if c = '{' then replaceParamsGo (.name []) cs
-    else if c = '/' then '/' :: replaceParamsGo .slash cs
-    else '/' :: c :: replaceParamsGo .normal cs
-  | .name rev, c :: cs =>
-    if isNameChar c then replaceParamsGo (.name (c :: rev)) cs
-    else if c = '}' ∧ rev ≠ [] then paramRegex ++ replaceParamsGo .normal cs
-    else
-      -- no match starting at that "/": emit what was read and rescan from `c`
-      ('/' :: '{' :: rev.reverse) ++
-        (if c = '/' then replaceParamsGo .slash cs else c :: replaceParamsGo .normal cs)
+def pathParamRegex : List Char := ['[', '^', '/', ']', '+']                  -- `[^/]+`
+def hostParamRegex : List Char := ['[', '^', '.', '/', ']', '+']             -- `[^./]+`
+def wildcardRegex : List Char := ['(', '/', '.', '*', ')', '?']              -- `(/.*)?`
+def hostWildcardRegex : List Char := ['(', '\\', '.', '.', '*', ')', '?']    -- `(\..*)?`
+def anyMethodRegex : List Char := ['[', '^', ':', ']', '+']                  -- `[^:]+` (F14b)
 
-def replaceParams (s : List Char) : List Char := replaceParamsGo .normal s
+/-- `formatURLPart` -/
+def formatPart (paramRegex w : List Char) : List Char := if isParamText w then paramRegex else quoteMeta w
 
-def wildcardRegex : List Char := ['(', '/', '.', '*', ')', '?']       -- `(/.*)?`
+/-- The trailing wildcard of `HaproxyEndpointFormat`: what is left of the URL and the wildcard expression. -/
+def splitWildcard (url : List Char) : List Char × List Char :=
+  match stripSuffix2 '/' '*' url with
+  | some pre => (pre, wildcardRegex)
+  | none =>
+    if !url.contains '/' then
+      match stripSuffix2 '.' '*' url with
+      | some pre => (pre, hostWildcardRegex)
+      | none => (url, [])
+    else (url, [])
+
+def formatHost (h : List Char) : List Char := joinWith ['\\', '.'] ((splitOn '.' h).map (formatPart hostParamRegex))
 
 /-- The URL part of `HaproxyEndpointFormat` and its `hasWildcard`. -/
 def formatURL (url : List Char) : List Char × Bool :=
-  let u := replaceDots url
-  match stripWildSuffix u with
-  | some pre => (replaceParams (pre ++ wildcardRegex), true)
-  | none => (replaceParams u, false)
+  let (u, wr) := splitWildcard url
+  let body := match splitOn '/' u with
+    | [] => []
+    | h :: segs => joinWith ['/'] (formatHost h :: segs.map (formatPart pathParamRegex))
+  (body ++ wr, !wr.isEmpty)
 
 def delimiter : List Char := [':', ':', ':']
 
-/-- `HaproxyEndpointFormat(method, url, _).Endpoint` -/
+/-- `HaproxyEndpointFormat(method, url, _).Endpoint` (the method text is NOT quoted). -/
 def formatEndpoint (method url : List Char) : List Char :=
   let (f, wild) := formatURL url
   method ++ delimiter ++ f ++ (if wild then [] else ['$'])
@@ -103,44 +114,55 @@ def render : List Part → List Char
   | [] => []
   | p :: ps => segChars p.seg ++ renderTail ps
 
-def paramRe : Re := .plus (.cls true [('/', '/')])
+def pathParamRe : Re := .plus (.cls true [('/', '/')])
+def hostParamRe : Re := .plus (.cls true [('.', '.'), ('/', '/')])
+def anyMethodRe : Re := .plus (.cls true [(':', ':')])
 def wildRe : Re := .opt (.group (.cat (.char '/') (.cat (.star .any) .eps)))
+def hostWildRe : Re := .opt (.group (.cat (.char '.') (.cat (.star .any) .eps)))
+
+/-- Regex pieces of one part without its delimiter. -/
+def segPieces (host : Bool) : Seg → List Re
+  | .lit s => s.toList.map Re.char
+  | .par _ => [if host then hostParamRe else pathParamRe]
+  | .wild => []
 
 /-- Regex pieces of the parts after the first one. -/
 def tailPieces : List Part → List Re
   | [] => []
   | p :: ps =>
-    (match p.host, p.seg with
-      | true, s => .char '.' :: (segChars s).map Re.char
-      | false, .lit s => .char '/' :: s.toList.map Re.char
-      | false, .par _ => [.char '/', paramRe]
-      | false, .wild => [wildRe]) ++ tailPieces ps
+    (match p.seg with
+      | .wild => [if p.host then hostWildRe else wildRe]
+      | s => .char (if p.host then '.' else '/') :: segPieces p.host s) ++ tailPieces ps
 
 def endsWild : List Part → Bool
   | [] => false
   | [p] => p.seg == .wild
   | _ :: ps => endsWild ps
 
+/-- How the method appears in the expression: a named method (literal text) or "any method" (F14b). -/
+def methodPieces (method : Option (List Char)) : List Re :=
+  match method with
+  | some m => m.map Re.char
+  | none => [anyMethodRe]
+
+def methodText (method : Option (List Char)) : List Char := method.getD anyMethodRegex
+
 /-- Intended meaning of the registered expression for `method` and pattern `P`. -/
-def formatAST (method : List Char) (P : List Part) : Re :=
+def formatAST (method : Option (List Char)) (P : List Part) : Re :=
   match P with
-  | [] => catList (method.map Re.char ++ delimiter.map Re.char ++ [.eol])
+  | [] => catList (methodPieces method ++ delimiter.map Re.char ++ [.eol])
   | p :: ps =>
-    catList (method.map Re.char ++ delimiter.map Re.char ++ (segChars p.seg).map Re.char ++ tailPieces ps
+    catList (methodPieces method ++ delimiter.map Re.char ++ segPieces true p.seg ++ tailPieces ps
       ++ (if endsWild (p :: ps) then [] else [.eol]))
 
 /-! ### 3. Registration -/
 
-def defaultMethods : List String := ["GET", "POST", "PUT", "DELETE", "PATCH"]
 
 structure Flow where
   name : String
   url : String
   methods : List String
 deriving DecidableEq, Repr
-
-/-- `Filter.GetSupportedMethods` -/
-def Flow.supported (f : Flow) : List String := if f.methods.isEmpty then defaultMethods else f.methods
 
 /-- `Filter.IsAnyURLAccepted` -/
 def isAnyURL (url : String) : Bool := url == "" || url == "*" || url == ".*"
@@ -168,8 +190,11 @@ def dedup {α : Type} [DecidableEq α] : List α → List α
   | [] => []
   | a :: as => if a ∈ as then dedup as else a :: dedup as
 
+/-- `buildHAProxyFlowsEndpointsRequest` after F14b: a filter that names no method gets ONE expression whose
+    method part accepts any method. -/
 def keyEntries (k : String × List String) : List (List Char) :=
-  (if k.2.isEmpty then defaultMethods else k.2).map fun m => formatEndpoint m.toList k.1.toList
+  if k.2.isEmpty then [formatEndpoint anyMethodRegex k.1.toList]
+  else k.2.map fun m => formatEndpoint m.toList k.1.toList
 
 structure Policy where
   name : String
@@ -198,83 +223,47 @@ def registered : Cfg → List (List Char)
 def managedB (cfg : Cfg) (method url : String) : Bool :=
   manageAll cfg || (registered cfg).any fun e => exprSearch e (subject method.toList url.toList)
 
-/-! ### 4a. Flows mode: the filter tree -/
+/-! ### 4a. Flows mode: the filter tree (after F03a, F03b, F03d) -/
 
 structure FNode where
   flows : List Flow
-  reqMethods : List String        -- `filterRequirements.methods`: those of the flow that created the node
 deriving Repr
 
 structure FTree where
   tree : Tree Nat := []
   nodes : List FNode := []
+  byUrl : List (String × Nat) := []      -- `FilterTree.nodes`: filter nodes by trimmed declared URL
 deriving Repr
 
 inductive AddRes where
   | ok (t : FTree)
   | err                            -- `InsertDeclaredURL` failed
-  | panic                          -- lookup matched a node without value: nil dereference in `AddFlow`
 
-/-- `FilterTree.AddFlow` (user flows). -/
+def findKey (k : String) : List (String × Nat) → Option Nat
+  | [] => none
+  | (k', i) :: rest => if k' = k then some i else findKey k rest
+
+/-- `FilterTree.AddFlow` (user flows): a flow is merged only into the node of its OWN (trimmed) URL. -/
 def addFlow (ft : FTree) (f : Flow) : AddRes :=
-  let parts := splitURL f.url
-  let r := lookupParts ft.tree parts
-  if r.isMatch && renderParts r.norm == f.url then
-    match r.value with
-    | some i => .ok { ft with nodes := ft.nodes.modify i fun n => { n with flows := n.flows ++ [f] } }
-    | none => .panic
-  else
-    match insertParts ft.tree parts ft.nodes.length true with
+  let key := trimURL f.url
+  match findKey key ft.byUrl with
+  | some i => .ok { ft with nodes := ft.nodes.modify i fun n => { n with flows := n.flows ++ [f] } }
+  | none =>
+    match insertParts ft.tree (splitURL f.url) ft.nodes.length true with
     | .error _ => .err
-    | .ok t' => .ok ⟨t', ft.nodes ++ [⟨[f], f.methods⟩]⟩
+    | .ok t' => .ok ⟨t', ft.nodes ++ [⟨[f]⟩], ft.byUrl ++ [(key, ft.nodes.length)]⟩
 
-/-- `wildcardChild.hasValue()` -/
-def wildValue (res : Res Nat) : Option Nat :=
-  match wildChild? res with
-  | some (some v) => some v
-  | _ => none
+/-- `isMethodQualified`: by the flow's OWN method list; none named = any method. -/
+def methodOK (f : Flow) (method : String) : Bool := f.methods.isEmpty || f.methods.contains method
 
-/-- The loop of `lookupFlow` (url_tree_flow_traversal.go) with its epilogue.  `index == lookUpLength` holds
-    exactly when the loop reached the LAST part, whether it then moved into a child or broke out. -/
-def flowGo (res : Res Nat) (acc : List Nat) : List Part → List Nat
-  | [] => acc
-  | u :: us =>
-    let acc1 := match wildValue res with
-      | some v => acc ++ [v]
-      | none => acc
-    let viaConst : Option (Res Nat) := match u.seg with
-      | .lit s => if constFlag? res s = some u.host then some (step (.lit s) res) else none
-      | _ => none
-    let moved : Option (Res Nat) := match viaConst with
-      | some r => some r
-      | none => match parChild? res with
-        | some (_, h) => if h = u.host then some (step .par res) else none
-        | none => none
-    match us with
-    | [] =>
-      let final := moved.getD res
-      match nodeValue final, wildChild? final with
-      | some v, none => acc1 ++ [v]
-      | _, _ =>
-        if u.host then
-          match wildValue final with
-          | some v => acc1 ++ [v]
-          | none => acc1
-        else acc1
-    | _ :: _ =>
-      match moved with
-      | some r => flowGo r acc1 us
-      | none => acc1
-
-/-- `isMethodQualified` of a user flow on a node. -/
-def methodOK (n : FNode) (f : Flow) (method : String) : Bool :=
-  n.reqMethods.isEmpty || f.supported.contains method
-
-/-- `FilterTree.GetFlow`: names of the user flows selected for a request. -/
+/-- `FilterTree.GetFlow`: names of the user flows selected for a request.  The traversal is w-c03's model
+    `C03.lookupFlow` of url_tree_flow_traversal.go (after F03b/c/f: `matchedAll`, zero-segment wildcard, no
+    empty segment for a parameter). -/
 def getFlow (ft : FTree) (method url : String) : List String :=
-  (flowGo ft.tree [] (splitURL url)).flatMap fun i =>
+  let us := splitURL url
+  (C03.lookupFlow ft.tree us).flatMap fun i =>
     match ft.nodes[i]? with
-    | some n => (n.flows.filter fun f => methodOK n f method).map (·.name)
+    | some n => (n.flows.filter fun f => methodOK f method).map (·.name)
     | none => []
 
 /-! ### 4b. Policy mode: the endpoint policy tree (C13 model) -/
